@@ -475,13 +475,16 @@ package hclsyntax
 // and litDecodes counts its calls.
 // verif:specfunc litOK(b []byte) bool
 // verif:specfunc litVal(b []byte) string
+// (round 6) the body is now verified for its index and slice expressions (C15: no input makes the
+// decoder slice out of range); the clauses that *define* litOK / litVal / litDecodes stay assumed.
 // verif:func ParseStringLiteralToken
-//@ trusted
-//@ props C02,C12
-//@ assigns litDecodes
-//@ ensures counted: litDecodes == old(litDecodes) + 1
-//@ ensures litOK(tok.Bytes) ==> !hasErr(ret1)
-//@ ensures ret0 == litVal(tok.Bytes)
+//@ nosafety nil panic assert
+//@ props C02,C12,C15
+//@ assumes counted: litDecodes == old(litDecodes) + 1
+//@ assumes litOK(tok.Bytes) ==> !hasErr(ret1)
+//@ assumes ret0 == litVal(tok.Bytes)
+// (the UTF-8 bytes of a unicode escape are written into the last l cells of the result)
+//@ loop 3 invariant 0 <= i && len(ret) >= i
 // A quoted literal (block label, quoted attribute name): unless a diagnostic is reported, every literal
 // piece between the quotes is decoded by the escape decoder exactly once - no piece is taken
 // verbatim, none is decoded twice.
